@@ -146,3 +146,103 @@ def run(ctx: Ctx):
                 ctx.fail("validator-only-on-int-fields", f"{c.name}.{f.name}",
                          f"carries {f.validator} although its property is not integer/uinteger typed", P_TYPES, f.lineno)
     ctx.floor("integer-typed attributes", n_int, 20)
+
+
+# ------------------------------------------------------------------------------------------------
+# "same verdict at both entry points" rests on axiom A3 (the generated structure function passes the raw
+# value to the constructor).  A class-keyed hook replaces that function: fold it on boundary inputs and compare
+# its verdict with the constructor's; if it cannot be folded the clause is undecided (analysis error).
+
+def _entry_points_agree(ctx: Ctx):
+    from ..pymodel import NONE, show, MISSING
+    from ..microeval import Interp, Record, Raised, ModuleRef, ClassRef
+    im = _imgbase.image(ctx)
+    t, h = im.types, im.hooks
+    vtree = ast.parse(ctx.src.text(P_VALIDATORS))
+    vit = Interp(vtree, name=P_VALIDATORS)
+    n = 0
+    for key, reg in h.class_hooks().items():
+        if key == NONE or key[0] in ("opaque", "prim"):
+            continue
+        n += 1
+        if key[0] != "cls":
+            raise AnalysisError(f"{h.rel}:{reg.lineno}: a structure hook is registered for {show(key)}; the enum/validator "
+                                "verdict at the converter entry point is no longer given by axiom A1/A3")
+        c = t.classes[key[1]]
+        int_fields = [f for f in c.fields if f.validator in ("integer", "uinteger")]
+        simple = all((f.validator in ("integer", "uinteger", "instance_of(str)", "instance_of(bool)")) and not f.has_default
+                     for f in c.fields)
+        if not int_fields:
+            continue
+        if not simple or not isinstance(reg.hook, ast.FunctionDef):
+            raise AnalysisError(f"{h.rel}:{reg.lineno}: a hand-written structure hook replaces the generated function of "
+                                f"{c.name}, which has integer-validated fields; equality of verdicts is not decidable here")
+
+        def ctor_for(cls):
+            def ctor(*a, **kw):
+                if a:
+                    raise AnalysisError("positional constructor call in a class hook")
+                vals = {}
+                for f in cls.fields:
+                    if f.name in kw:
+                        v = kw[f.name]
+                    elif f.has_default:
+                        v = f.default
+                    else:
+                        raise Raised("TypeError", (f"missing {f.name}",))
+                    inst = Record(cls.name, {})
+                    if f.validator in ("integer", "uinteger"):
+                        vit.globals[f"{f.validator}_validator"](inst, Record("Attribute", {"name": f.name}), v)
+                    elif f.validator == "instance_of(str)" and not isinstance(v, str):
+                        raise Raised("TypeError", ("not a str",))
+                    elif f.validator == "instance_of(bool)" and not isinstance(v, bool):
+                        raise Raised("TypeError", ("not a bool",))
+                    vals[f.name] = v
+                extra = set(kw) - {f.name for f in cls.fields}
+                if extra:
+                    raise Raised("TypeError", (f"unexpected keyword {sorted(extra)}",))
+                return Record(cls.name, vals)
+            return ("host", ctor)
+        types_mod = ModuleRef("types", attrs={cn: ctor_for(cc) for cn, cc in t.classes.items() if cc.kind == "attrs"})
+        it = Interp(name=h.rel, extra_globals={h.types_alias: types_mod, "validators": ModuleRef("validators", interp=vit)})
+        lo, hi = {"integer": (-(2 ** 31), 2 ** 31 - 1), "uinteger": (0, 2 ** 31 - 1)}, None
+        import itertools
+        grids = []
+        for f in c.fields:
+            if f.validator in ("integer", "uinteger"):
+                a, b = lo[f.validator]
+                grids.append([a - 1, a, 0, 1, b, b + 1, 2 ** 40])
+            elif f.validator == "instance_of(str)":
+                grids.append(["x"])
+            else:
+                grids.append([True])
+        ctor = ctor_for(c)[1]
+        for combo in itertools.product(*grids):
+            raw = {im.camel(f.name): v for f, v in zip(c.fields, combo)}
+            kw = {f.name: v for f, v in zip(c.fields, combo)}
+            try:
+                ctor(**kw)
+                direct = "accept"
+            except Raised:
+                direct = "reject"
+            try:
+                r = it.call(reg.hook, [raw, None], closure_env={reg.conv_name: Record("Converter", {})})
+                via = "accept"
+                if isinstance(r, Record) and r.fields != kw:
+                    via = f"accept-as-{r.fields}"
+            except Raised:
+                via = "reject"
+            ctx.check(direct == via, "entry-points-agree", f"hook={reg.hook_name} class={c.name} input={raw}",
+                      f"the constructor would {direct} {kw} but the converter (through the hand-written hook "
+                      f"{reg.hook_name} registered for {c.name}) gives {via}", h.rel, reg.lineno,
+                      sample={"class": c.name, "input": raw, "constructor": direct, "converter": via})
+    if n == 0:
+        ctx.ok("entry-points-agree", {"class_keyed_hooks": 0, "argument": "axiom A3 applies to every attrs class"})
+
+
+_run_validators = run
+
+
+def run(ctx: Ctx):  # noqa: F811
+    _run_validators(ctx)
+    _entry_points_agree(ctx)
